@@ -450,6 +450,16 @@ class Sym:
     def item(self):
         return self
 
+    def __format__(self, spec):
+        # symbolic values inside messages / f-strings: a placeholder token
+        c = const_value(self.t)
+        if c is not None:
+            try:
+                return format(float(c) if not self.is_int else int(c), spec)
+            except (ValueError, TypeError):
+                pass
+        return f"<sym#{self.t.get_id()}>"
+
     # numpy object-dtype ufunc protocol: np.sin(objarr) calls elem.sin()
     def _uf(self, name):
         c = const_value(self.t)
